@@ -167,7 +167,9 @@ class ParserFactory:
             p[0] = AstNamespace(
                 self.path, p.lineno(1), p.lexpos(1), p[2], doc)
         else:
-            raise ValueError('Expected namespace keyword')
+            self.errors.append(
+                ("Expected 'namespace' keyword, got '%s'." % p[1],
+                 p.lineno(1), self.path))
 
     def p_import(self, p):
         'import : IMPORT ID NL'
@@ -184,7 +186,9 @@ class ParserFactory:
             if has_annotations:
                 p[0].set_annotations(p[7])
         else:
-            raise ValueError('Expected alias keyword')
+            self.errors.append(
+                ("Expected 'alias' keyword, got '%s'." % p[1],
+                 p.lineno(1), self.path))
 
     def p_nl(self, p):
         'NL : NEWLINE'
